@@ -14,7 +14,7 @@ txt = ["### 7.4 Seeded changes: which checks catch which changes",
        "Fresh sub-agents were given only the text of one property and a scratch worktree of `/repo`",
        "(nothing from `/verif`) and asked for changes that break the property, still compile and pass the",
        "pinned suite, and need something specific to manifest; from the second round on they were also",
-       "told which ideas had been used before (three rounds, 2 + 2 + 2 changes per property). Every change below was confirmed with `tools/seed_eval.sh`",
+       "told which ideas had been used before (four rounds, two changes per property and round). Every change below was confirmed with `tools/seed_eval.sh`",
        "in a scratch worktree (patch applies, 140/140 baseline tests pass with it, its demonstration fails",
        "with and passes without it) before it was kept under `/verif/seeded/<name>/` (patch.diff, the",
        "demonstration renamed to `*.go.txt`, README.md, meta.json). The checks were run against each",
@@ -32,7 +32,10 @@ for r in rows:
 txt += ["",
         "Discarded: one C13 seed (DWA identifier copies removed from `sm/dwr.go`) became an equivalent",
         "mutant once `Message.Answer` had been repaired to keep zero identifiers (fix for C16).",
-        "One round-3 seed for C02 was the same change as `C07-E-retry-resumes-at-cumulative-offset`.",
+        "One round-3 seed for C02 was the same change as `C07-E-retry-resumes-at-cumulative-offset`; two",
+        "round-4 seeds (for C01 and C02: Marshal takes the V flag from the dictionary's must list) repeat",
+        "`C18-D-v-flag-from-must-list` and are detected by C18 as that one is. Two round-4 seeds for C09 were",
+        "written against `ServeMux.ServeDIAM` as it was before fix `dda5ec7` and were ported by hand.",
         "",
         "Not counted as a violation, and therefore neither kept nor chased: a round-3 seed for C15 that",
         "suppresses the error report for a message whose *body is cut short by the peer's FIN* (`%w` in",
